@@ -131,6 +131,7 @@ func (r *FileRestorer) RestoreFile(file *dst.File) (*ast.File, error) {
 
 	r.base = r.Fset.Base() // base is the pos that the file will start at in the fset
 	r.cursor = token.Pos(r.base)
+	r.verifCursor("begin", "", 0, false, false, false, nil)
 
 	if err := r.updateImports(); err != nil {
 		return nil, err
@@ -143,6 +144,7 @@ func (r *FileRestorer) RestoreFile(file *dst.File) (*ast.File, error) {
 		f.Comments = append(f.Comments, cg)
 	}
 
+	r.verifCursor("end", "", 0, false, false, false, nil)
 	ff := r.Fset.AddFile(r.Name, r.base, r.fileSize())
 	if !ff.SetLines(r.lines) {
 		panic("ff.SetLines failed")
@@ -601,6 +603,7 @@ func (r *FileRestorer) applyLiteral(text string) {
 			r.lines = append(r.lines, lineOffset)
 		}
 	}
+	r.verifCursor("literal", "", 0, false, false, false, nil)
 }
 
 func (r *FileRestorer) hasCommentField(n ast.Node) bool {
@@ -703,6 +706,7 @@ func (r *FileRestorer) applyDecorations(node ast.Node, name string, decorations 
 		// This fixes https://github.com/dave/dst/issues/69
 		r.cursor++
 	}
+	r.verifCursor("decs", name, 0, end, false, isNodeFile, decorations)
 }
 
 func (r *FileRestorer) applySpace(node dst.Node, position string, space dst.SpaceType) {
@@ -734,6 +738,7 @@ func (r *FileRestorer) applySpace(node dst.Node, position string, space dst.Spac
 		r.cursor++
 		r.cursorAtNewLine = r.cursor
 	}
+	r.verifCursor("space", position, int(space), false, false, false, nil)
 }
 
 func (r *FileRestorer) restoreObject(o *dst.Object) *ast.Object {
